@@ -59,7 +59,7 @@ def rename_apart(fs, mark, cache):
                     if key not in cache:
                         cache[key] = z3.Const(nm + "#b", e.sort())
                     subs.append((e, cache[key]))
-                elif "!" in nm:
+                elif "!" in nm and not nm.startswith("new:"):
                     try:
                         k = int(nm.rsplit("!", 1)[1])
                     except ValueError:
